@@ -300,9 +300,29 @@ def _gating(ctx: Ctx, c: Collector) -> None:
             return any(holds(x, v) for x in cond[1])
         if cond[0] == "cmp" and cond[1] in ("<", "<=", "==", "!="):
             a, b = cond[2], cond[3]
-            la = v if a == ver else const_list(a)
-            lb = v if b == ver else const_list(b)
-            if la is not None and lb is not None:
+
+            def seq(x: Term):
+                """(values, 'list' | 'tuple') of the reported version -- also converted with tuple() / list() -- or of a constant display"""
+                x = T.strip(x)
+                if x == ver:
+                    return v, "list"
+                if x[0] == "call" and x[1][0] == "glob" and x[1][1] in ("tuple", "list") and len(x[2]) == 1:
+                    inner = seq(x[2][0])
+                    return None if inner is None else (inner[0], x[1][1])
+                if x[0] == "tuple" and all(y[0] == "const" for y in x[1]):
+                    return [y[1] for y in x[1]], "tuple"
+                cl = const_list(x)
+                if cl is not None:
+                    return cl, ("tuple" if len(x) > 2 and x[2] == "tuple" else "list")
+                return None
+            sa, sb = seq(a), seq(b)
+            if sa is not None and sb is not None:
+                (la, ka), (lb, kb) = sa, sb
+                if ka != kb:
+                    # a list never equals a tuple, and ordering them is a TypeError
+                    if cond[1] in ("==", "!="):
+                        return cond[1] == "!="
+                    raise boolfn.NotBoolean(f"{T.show(cond)} orders a list against a tuple (TypeError)")
                 return {"<": la < lb, "<=": la <= lb, "==": la == lb, "!=": la != lb}[cond[1]]
         if not T.contains((cond,), ver):
             # something other than the reported version: both outcomes are looked at (see `other`)
@@ -415,12 +435,37 @@ def _gating(ctx: Ctx, c: Collector) -> None:
         pr.append("a reported version different from the configured api_version is not rejected")
     else:
         gt = T.guard_term(mism[0].guards[-1])
-        if not (gt[0] == "and" and any(x[0] == "cmp" and x[1] == "!=" and ver in (x[2], x[3]) for x in gt[1])):
+
+        def kind_of(x: Term) -> Optional[str]:
+            x = T.strip(x)
+            if x == ver:
+                return "list"
+            if x[0] == "call" and x[1][0] == "glob" and x[1][1] in ("tuple", "list"):
+                return x[1][1]
+            if x[0] == "bag":
+                return "tuple" if len(x) > 2 and x[2] == "tuple" else "list"
+            if x[0] == "tuple":
+                return "tuple"
+            if x[0] in ("ifexp", "phi"):
+                ks = {kind_of(y) for y in (x[2], x[3]) if T.strip(y) != T.NONE}
+                return ks.pop() if len(ks) == 1 else None
+            return None
+
+        def is_ver(x: Term) -> bool:
+            x = T.strip(x)
+            return x == ver or (x[0] == "call" and x[1][0] == "glob" and x[1][1] in ("tuple", "list") and len(x[2]) == 1 and is_ver(x[2][0]))
+        neq = [x for x in (gt[1] if gt[0] == "and" else ()) if x[0] == "cmp" and x[1] == "!=" and (is_ver(x[2]) or is_ver(x[3]))]
+        if not neq:
             pr.append(f"the mismatch test is {T.show(gt)[:100]}, not `explicit and version != explicit`")
-    # both rejections dominate the wrapping: the return is guarded by their negations
-    rg = [T.guard_term(g) for g in rets[0].guards]
-    if LT4 not in rg:
-        pr.append("adapters are applied without excluding versions >= 4")
+        else:
+            ka, kb = kind_of(neq[0][2]), kind_of(neq[0][3])
+            if ka is not None and kb is not None and ka != kb:
+                pr.append(f"the mismatch test compares a {ka} with a {kb}: they are never equal, so every configured api_version is reported as a mismatch")
+    # both rejections dominate the wrapping: no representative too-new version reaches the return
+    for v in ([4], [4, 1], [7]):
+        if fires(rets[0], v) is not False:
+            pr.append("adapters are applied without excluding versions >= 4")
+            break
     c.add("gate", ADAPT, "rejections (>= 4, explicit mismatch) dominate the wrapping", VIOLATED if pr else DISCHARGED, "; ".join(pr), loc)
     c.info["explicit_parse"] = T.show(expl) if expl is not None else None
     # version parsing agreement (sibling parsers)
